@@ -19,6 +19,7 @@ fn main() {
         "lru-replay" => sync_replay::lru(&args[2..]),
         "coalesce-stress" => sync_replay::coalesce(&args[2..]),
         "store-recover" => store::recover(&args[2..]),
+        "store-tamper" => store::tamper(&args[2..]),
         "log-replay" => log_replay::main(&args[2..]),
         "mani-run" => mani_run::run(&args[2..]),
         "mani-recover" => mani_run::recover(&args[2..]),
